@@ -7,10 +7,26 @@ Local Open Scope N_scope.
 
 (* ---- the tie to the code: src/polyseed.c as TRANSLATED on this run (Gen/CApi.v) ---- *)
 From Coq Require Import String.
-From PS Require Import Base GFDefs PackDefs StoreDefs MiscDefs StrDefs LangDefs ApiDefs SpecDefs SpecApi GFProofs PackProofs StoreProofs RefineProofs RoundTrip TraceProofs FrameProofs SafetyProofs CTieBase CTieLang CTiePhrase CTiePhraseEv CTieSplit CTieApi CTieDecode CTieEncode CTieLocals CTieInject CTieCmp CTieSearch CTieClosed CodeTheorems CodeMachine.
+From PS Require Import Base GFDefs PackDefs StoreDefs MiscDefs StrDefs LangDefs ApiDefs SpecDefs SpecApi GFProofs PackProofs StoreProofs RefineProofs RoundTrip TraceProofs FrameProofs SafetyProofs CTieBase CTieLang CTiePhrase CTiePhraseEv CTieSplit CTieApi CTieDecode CTieEncode CTieLocals CTieInject CTieCmp CTieSearch CTieClosed CodeTheorems HeldProofs CodeMachine.
 From PS.Gen Require Import Consts PrivConsts Langs.
 From PS.Gen Require CFuns.
 From PS.Gen Require CApi.
+
+(* ON THE CODE: what the TRANSLATED polyseed_encode / store / crypt / keygen / queries / free do on a held seed does not depend on the feature set enabled at the time of the call - cstep_ok composed with HeldProofs.held_independent *)
+Theorem C12_code_tie_held_independent :
+  forall (sgn : bool) (fuel : nat) (ext : Z -> list Z -> Z) (OKW : bytes -> Prop),
+         (forall (li : nat) (L : lang) (w : bytes),
+          OKW w -> nth_error langs li = Some L -> ext (Z.of_nat li) (zs w) = enc (lang_search sgn L w)) ->
+         (forall t : bytes, no_nul t -> (Datatypes.length t + 2 <= fuel)%nat -> OKW t) ->
+         (18 <= fuel)%nat ->
+         forall (st : state) (r : N) (o : op),
+         uses_held o = true ->
+         op_ready sgn fuel st o ->
+         cstep sgn fuel ext (with_reserved r st) o =
+         (with_reserved r (fst (fst (cstep sgn fuel ext st o))), snd (fst (cstep sgn fuel ext st o)),
+          snd (cstep sgn fuel ext st o)).
+Proof. exact @code_held_independent. Qed.
+Print Assumptions C12_code_tie_held_independent.
 
 (* ON THE CODE: the translated polyseed_crypt applied twice with the same password returns the struct byte for byte - tie composed with C12_involution *)
 Theorem C12_code_tie_involution :
